@@ -111,6 +111,8 @@ def isomorphic(c1, e1, c2, e2, budget=200_000, engine="auto"):
         return False
     if engine == "auto" and n1 <= SMALL_N:
         return canon_small(c1, es1) == canon_small(c2, es2)
+    if engine == "auto" and wl_signature(c1, es1) != wl_signature(c2, es2):
+        return False  # colour refinement separates them: certainly non-isomorphic (sound filter; keeps VF2 away from hard negative cases)
     if engine in ("auto", "igraph"):
         return _igraph_vf2(c1, es1, c2, es2)
     return _nx_vf2(c1, es1, c2, es2, budget)
